@@ -171,8 +171,11 @@ def render_canonical(spec, cls_suffix="", _providers_only=False, _uid=None):
                 body += _validator_def(nm, v, prov)
         if prov != "model" and spec.get("eq_listeners"):
             # distinct listener objects that compare (and hash) equal, e.g. value objects
-            body += ["    def __eq__(self, other):", "        return getattr(other, '_eqkey', None) == 'same'",
-                     "    def __hash__(self):", "        return 7", "    _eqkey = 'same'"]
+            body += ["    def __eq__(self, other):", "        return getattr(other, '_eqkey', None) == 'same'", "    _eqkey = 'same'"]
+            if spec["eq_listeners"] == "unhashable":
+                body += ["    __hash__ = None      # e.g. a plain (non-frozen) dataclass"]
+            else:
+                body += ["    def __hash__(self):", "        return 7"]
         L += body or ["    pass"]
         L.append("")
     # per-instance hooks (assigned on the object, not defined on its class)
